@@ -116,12 +116,12 @@ func (r *recorder) AddOrReplaceMap(meta nftables.MapMetadata, members map[string
 	r.rs.Maps[meta.Name] = m
 }
 
-func (r *recorder) RemoveMap(id string)                                     { delete(r.rs.Maps, id) }
-func (r *recorder) MapUpdates() *nftables.MapUpdates                        { return nil }
-func (r *recorder) FinishMapUpdates(*nftables.MapUpdates)                   {}
-func (r *recorder) LoadDataplaneState(context.Context, []string) error      { return nil }
-func (r *recorder) InvalidateMapsCache()                                    {}
-func (r *recorder) InsertRulesNow(string, []generictables.Rule) error       { return nil }
+func (r *recorder) RemoveMap(id string)                                { delete(r.rs.Maps, id) }
+func (r *recorder) MapUpdates() *nftables.MapUpdates                   { return nil }
+func (r *recorder) FinishMapUpdates(*nftables.MapUpdates)              {}
+func (r *recorder) LoadDataplaneState(context.Context, []string) error { return nil }
+func (r *recorder) InvalidateMapsCache()                               {}
+func (r *recorder) InsertRulesNow(string, []generictables.Rule) error  { return nil }
 func (r *recorder) CheckRulesPresent(string, []generictables.Rule) []generictables.Rule {
 	return nil
 }
